@@ -119,6 +119,8 @@ func layouts(data []byte) map[string][]byte {
 	ind, _ := json.MarshalIndent(v, "", "    ") // also sorts members alphabetically
 	b4.Write(ind)
 	out["indented-sorted"] = b4.Bytes()
+	// insignificant whitespace around the whole value
+	out["padded"] = append(append([]byte("\n  \r\n\t"), data...), []byte("  \n\n")...)
 	return out
 }
 
@@ -154,7 +156,7 @@ var safeIDRe = regexp.MustCompile(`^[a-zA-Z0-9.-]+$`)
 func parseObserve(data []byte, f formats.Format) []any {
 	res := []any{}
 	ls := layouts(data)
-	for _, name := range []string{"compact", "whitespace", "reversed", "escaped", "indented-sorted"} {
+	for _, name := range []string{"compact", "whitespace", "reversed", "escaped", "indented-sorted", "padded"} {
 		b, ok := ls[name]
 		if !ok {
 			continue
@@ -327,6 +329,13 @@ func parseRun(args []string) error {
 	}
 	// the public identifier generator
 	seeds := [][]string{{}, {"auto"}, {"auto", "000000001"}, {"node", "x"}, {"a/b:c d"}, {"ünï✓"}, {""}, {"", ""}, {"auto", ""}, {"...---"}, {"x", "y", "z"}, {"auto", "auto"}, {"node"}, {"\x00\n"}, {strings.Repeat("long", 100)}}
+	// every printable ASCII character on its own and inside a word, and a few multi-byte runes
+	for c := 0x20; c < 0x7f; c++ {
+		seeds = append(seeds, []string{string(rune(c))}, []string{"node", "a" + string(rune(c)) + "b"})
+	}
+	for _, rn := range []rune{0xe9, 0x3b1, 0x65e5, 0x1f680, 0x2028} {
+		seeds = append(seeds, []string{"x" + string(rn)})
+	}
 	for _, s := range seeds {
 		sid++
 		ev := map[string]any{"op": "IDGEN", "sid": sid, "seeds": s}
@@ -454,6 +463,22 @@ func sniffRun(args []string) error {
 			}
 			for name, b := range layouts(data) {
 				emit("writer:"+f+":"+name, want[f], b)
+			}
+		}
+	}
+	// one large document (several MiB at the wider indentations): detection does not depend on the size
+	if *seed%100 == 0 {
+		big := newDoc(r)
+		for i := 0; i < 12000; i++ {
+			big.NodeList.Nodes = append(big.NodeList.Nodes, &sbom.Node{Id: fmt.Sprintf("pkg-%d", i), Name: fmt.Sprintf("package number %d", i), Version: "1.0.0",
+				Hashes: map[int32]string{3: "0123456789abcdef0123456789abcdef0123456789abcdef0123456789abcdef"}})
+		}
+		big.NodeList.RootElements = []string{"pkg-0"}
+		for _, f := range []string{"spdx23", "cdx15"} {
+			for _, ind := range []int{0, 4, 8} {
+				if data, k, _ := writeDoc(big, trFormats[f], ind); k == "ok" {
+					emit(fmt.Sprintf("writer-large:%s:indent%d:%dB", f, ind, len(data)), want[f], data)
+				}
 			}
 		}
 	}
